@@ -49,6 +49,50 @@ fn main() {
             println!("hash(SELECT 1 / [int8]) = {:x}   hash(SELECT 112 / []) = {:x}", a.get_hash(), b.get_hash());
             if a.get_hash() == b.get_hash() { println!("DEFECT MANIFESTS: two different statements share one cache key (and so one server-side statement)"); std::process::exit(1); }
         }
+        // C06: the shard chosen for a bound key must not depend on the other parameters of the Bind
+        "f6" => {
+            use bytes::{BufMut, BytesMut};
+            use pgcat::pool::PoolSettings;
+            fn bind(params: &[&[u8]]) -> BytesMut {
+                let mut p = BytesMut::from(&b"\0\0"[..]);
+                p.put_i16(0); // all parameters in text format
+                p.put_i16(params.len() as i16);
+                for v in params { p.put_i32(v.len() as i32); p.put_slice(v); }
+                p.put_i16(0);
+                let mut b = BytesMut::from(&b"B"[..]);
+                b.put_i32(p.len() as i32 + 4);
+                b.put(p);
+                b
+            }
+            fn router() -> QueryRouter {
+                let mut ps = PoolSettings::default();
+                ps.automatic_sharding_key = Some("data.id".to_string());
+                ps.shards = 3;
+                ps.query_parser_enabled = true;
+                ps.query_parser_read_write_splitting = true;
+                let mut qr = QueryRouter::new();
+                qr.update_pool_settings(&ps);
+                qr
+            }
+            let mut a = router();
+            a.infer(&a.parse(&simple_query("SELECT * FROM data WHERE id = $1")).unwrap()).unwrap();
+            assert!(a.infer_shard_from_bind(&bind(&[b"5"])));
+            let want = a.shard();
+            println!("key 5 bound as $1 of `WHERE id = $1`: shard {:?}", want);
+            let r = std::panic::catch_unwind(|| {
+                let mut b = router();
+                b.infer(&b.parse(&simple_query("SELECT * FROM data WHERE id = $2 AND name LIKE $1")).unwrap()).unwrap();
+                let found = b.infer_shard_from_bind(&bind(&[b"bob%", b"5"]));
+                (found, b.shard())
+            });
+            match r {
+                Err(_) => { println!("DEFECT MANIFESTS: panic while reading key 5 bound as $2 after a text parameter"); std::process::exit(1); }
+                Ok((found, got)) => {
+                    println!("key 5 bound as $2 of `WHERE id = $2 AND name LIKE $1`: found={} shard {:?}", found, got);
+                    if !found || got != want { println!("DEFECT MANIFESTS: same key, different routing"); std::process::exit(1); }
+                }
+            }
+        }
         _ => { eprintln!("unknown demo"); std::process::exit(2); }
     }
     println!("ok");
